@@ -7,13 +7,14 @@ set -u
 ID=$1; shift
 WT=/tmp/seed_$ID; OUT=/tmp/seed_out/$ID; DST=/verif/seeded/$ID
 cd /verif
-test -s $OUT/patch.diff || git -C $WT diff > $OUT/patch.diff
 test -s $OUT/patch.diff || { echo "no patch"; exit 2; }
+# the worktree is reset to exactly the delivered patch (git stash is shared between worktrees: never used here)
+git -C $WT checkout -q -- . && git -C $WT checkout -q --detach $(git -C /repo rev-parse HEAD) && git -C $WT apply $OUT/patch.diff || { echo "patch does not apply"; exit 2; }
 PYT=$(/venv/bin/python /tmp/seedtools/intree.py $WT pytest synphot 2>&1 | tail -1)
 DEMO_BAD=$(/venv/bin/python /tmp/seedtools/intree.py $WT run $OUT/demo.py >/dev/null 2>&1; echo $?)
-git -C $WT stash -q
+git -C $WT checkout -q -- .
 DEMO_GOOD=$(/venv/bin/python /tmp/seedtools/intree.py $WT run $OUT/demo.py >/dev/null 2>&1; echo $?)
-git -C $WT stash pop -q
+git -C $WT apply $OUT/patch.diff
 echo "pytest on changed tree: $PYT"
 echo "demo on changed tree exit=$DEMO_BAD (want != 0); on clean tree exit=$DEMO_GOOD (want 0)"
 RES=""
